@@ -17,6 +17,10 @@ structure Sec (b : SecBuf) : Prop where
   settled : (!b.isLoaded && b.canLoad) = false
   buf : ∀ d, b.data = some d → b.size.toNat < d.length
 
+/-- a resident section is smaller than 4 GiB (what an input shorter than 4 GiB implies): the 32-bit
+    counters of the GNU hash walk, of `swap_symbols` and of `arrange_local_symbols` then cannot wrap -/
+def Small (b : SecBuf) : Prop := ∀ d, b.data = some d → b.size.toNat < 4294967296
+
 /-- `Sec` for a pointer that may be null -/
 def OSec (s : Option SecBuf) : Prop := ∀ b, s = some b → Sec b
 
